@@ -270,6 +270,9 @@ def run_batch(exe, plans, timeout=20, cwd=None):
     err = p.stderr.decode('latin-1')
     for r in res.values():
         r.stderr = err if r.status not in ('exit=0',) else ''
+        if r.status and r.status.startswith('signal=') and r.raw and not r.raw[-1].split(' ')[2:3] == ['Q']:
+            # killed without a final flush: the last line may be cut short
+            r.raw.pop()
         for l in r.raw:
             try:
                 r.events.append(parse_event(l))
